@@ -15,6 +15,16 @@ def run(vh, st, tcfg, sdir, seed, goenv):
     trace = os.path.join(sdir, "trace.ndjson")
     stats = os.path.join(sdir, "stats.json")
     cmd = [vh, st["recorder"], "-edges", trace, "-walks", str(tcfg.get("traces", 200)), "-seed", str(seed), "-out", stats]
+    if st.get("header"):
+        # the recorder takes its configuration (set-ups, vesting types, addresses) from the specification: TLC prints the header lines
+        h = st["header"]
+        hdir = os.path.join(sdir, "header")
+        tlc.stage(hdir, h["files"] + [h["cfg"]])
+        hr = tlc.run_tlc(hdir, os.path.basename(h["module"]), os.path.basename(h["cfg"]), workers=1, heap="2g", timeout=300, gc_threads=2)
+        if not hr.ok:
+            info["broken"] = "TLC failed printing the configuration header: %s" % ((hr.error or hr.violation or "")[:1500])
+            return info, [], 0
+        cmd += ["-hdr", hr.out_path]
     p = subprocess.run(cmd, env=goenv, stdout=subprocess.PIPE, stderr=subprocess.STDOUT, text=True, timeout=tcfg.get("htimeout", 1800))
     if p.returncode != 0 or not os.path.exists(trace):
         info["broken"] = "trace recorder failed (rc=%s): %s" % (p.returncode, p.stdout[-2000:])
@@ -34,8 +44,11 @@ def run(vh, st, tcfg, sdir, seed, goenv):
     findings = []
     if r.violation:
         # an invariant of the specification is false in a state of a real execution
-        m = re.search(r"Invariant (\w+) is violated", r.violation)
+        m = re.search(r"Invariant (\w+) is violated", r.violation) or re.search(r"Action property (\w+) is violated", r.violation)
         inv = m.group(1) if m else "unknown"
+        if not m:
+            m2 = re.search(r"Action property line (\d+), col", r.violation)
+            inv = st.get("property_lines", {}).get(m2.group(1), "action-property-line-" + m2.group(1)) if m2 else "unknown"
         line = max(1, r.depth - 1)
         ev = json.loads(lines[min(line, len(lines)) - 1]) if lines else {}
         findings.append({"prop": st["invariant_owner"].get(inv, st["default_owner"]), "kind": "predicate", "sig": "trace.%s.invariant.%s" % (st["name"], inv),
@@ -46,7 +59,10 @@ def run(vh, st, tcfg, sdir, seed, goenv):
         line = r.depth  # states = consumed lines + 1
         ev = json.loads(lines[line - 1]) if 0 < line <= len(lines) else {}
         prev = [json.loads(x) for x in lines[max(0, line - 4):line - 1]]
-        findings.append({"prop": st["event_owner"].get(ev.get("ev"), st["default_owner"]), "kind": "mismatch", "sig": "trace.%s.rejected.%s" % (st["name"], ev.get("ev")),
+        owner = st["event_owner"].get(ev.get("ev"), st["default_owner"])
+        if ev.get("ev") == "msg" and st.get("msg_owner"):
+            owner = st["msg_owner"].get(ev.get("m"), owner)
+        findings.append({"prop": owner, "kind": "mismatch", "sig": "trace.%s.rejected.%s" % (st["name"], ev.get("m") or ev.get("ev")),
                          "msg": "recorded real execution is not a behaviour of the specification: trace line %d cannot be explained" % line,
                          "path": prev + [ev], "expected": None, "observed": ev})
     elif not r.ok:
@@ -57,7 +73,12 @@ def run(vh, st, tcfg, sdir, seed, goenv):
         idx = [i for i, x in enumerate(lines) if ('"ev":"%s"' % st["corrupt_event"]) in x]
         k = idx[len(idx) // 2]
         e = json.loads(lines[k])
-        if st.get("corrupt_field"):
+        if st.get("corrupt_path"):
+            x = e
+            for kk in st["corrupt_path"][:-1]:
+                x = x[kk]
+            x[st["corrupt_path"][-1]] += 1
+        elif st.get("corrupt_field"):
             e[st["corrupt_field"]] = e[st["corrupt_field"]] + 1
         else:
             # bump the first number found inside the event (nested coin maps)
